@@ -1372,3 +1372,86 @@ mutant("c16-disjunctive-pairs-skipped", "C16", "R16.e", BDG,
        "        for node1, node2 in itertools.combinations(machine, 2):",
        "        for node1, node2 in itertools.combinations(machine, 2):\n            if node1.operation.job_id == node2.operation.job_id:\n                continue",
        "round-10 seed C16-b2FE: some pairs of a machine get no disjunctive edge")
+
+
+# ------------------------------------------------------------------ round 12 / seed round 11 (large clean-ups with one slip)
+GUPD = "job_shop_lib/graphs/graph_updaters/_graph_updater.py"
+UOBS2 = "job_shop_lib/dispatching/_unscheduled_operations_observer.py"
+MENV = "job_shop_lib/reinforcement_learning/_multi_job_shop_graph_env.py"
+GCC = "job_shop_lib/visualization/_gantt_chart_creator.py"
+REW2 = "job_shop_lib/reinforcement_learning/_reward_observers.py"
+ATG = "job_shop_lib/graphs/_build_agent_task_graph.py"
+GGEN = "job_shop_lib/generation/_general_instance_generator.py"
+
+_v("c12-m-reset-shallow-copy", "C12", "mutant", "R12.d", [
+    (GUPD, "from copy import deepcopy\n", "from copy import deepcopy, copy\n"),
+    (GUPD, "        self.job_shop_graph = deepcopy(self.initial_job_shop_graph)", "        self.job_shop_graph = copy(self.initial_job_shop_graph)"),
+], "shallow copy shares the networkx graph and the removed flags with the pristine graph")
+mutant("c05-m-update-head-test", "C05", "R05.e", UOBS2,
+       "        if job_deque:\n            job_deque.popleft()",
+       "        if not job_deque or job_deque[0] != scheduled_operation.operation:\n            return\n        job_deque.popleft()",
+       "notifications replayed machine by machine are dropped")
+mutant("c18-m-init-padding-constant", "C18", "R18.a", MENV,
+       "            render_config=render_config,\n            use_padding=use_padding,\n",
+       "            render_config=render_config,\n            use_padding=True,\n",
+       "the constructor argument does not reach the inner environment")
+_v("c15-m-flat-zip", "C15", "mutant", "R15.a", [
+    (INST, "        return self.jobs == other.jobs",
+     "        if self.num_jobs != other.num_jobs:\n            return False\n"
+     "        return all(map(operator.eq, itertools.chain.from_iterable(self.jobs), itertools.chain.from_iterable(other.jobs)))"),
+    (INST, "import functools\n", "import functools\nimport itertools\nimport operator\n"),
+], "flattened streams paired up to the shorter one")
+_v("c15-r-flat-zip-guarded", "C15", "refactor", None, [
+    (INST, "        return self.jobs == other.jobs",
+     "        if list(map(len, self.jobs)) != list(map(len, other.jobs)):\n            return False\n"
+     "        return all(map(operator.eq, itertools.chain.from_iterable(self.jobs), itertools.chain.from_iterable(other.jobs)))"),
+    (INST, "import functools\n", "import functools\nimport itertools\nimport operator\n"),
+], "the job lengths agree: the flattened streams have equal length and the same boundaries")
+_v("c20-m-history-captured", "C20", "mutant", "R20.d", [
+    (GCC, "        self.partial_gantt_chart_plotter = get_partial_gantt_chart_plotter(\n            **self.gannt_chart_wrapper_config\n        )\n",
+     "        self.partial_gantt_chart_plotter = get_partial_gantt_chart_plotter(\n            **self.gannt_chart_wrapper_config\n        )\n"
+     "        self._recorded_history = self.history_observer.history\n"),
+    (GCC, "        create_gantt_chart_gif(\n            instance=self.history_observer.dispatcher.instance,\n            schedule_history=self.history_observer.history,",
+     "        create_gantt_chart_gif(\n            instance=self.history_observer.dispatcher.instance,\n            schedule_history=self._recorded_history,"),
+], "HistoryObserver.reset rebinds its list: the captured one is the first episode's")
+_v("c10-r-notify-by-name", "C10", "refactor", None, [
+    (DISP, "        self._cache = {}\n        for subscriber in self.subscribers:\n            subscriber.reset()\n",
+     "        self._cache = {}\n        self._notify(\"reset\")\n\n"
+     "    def _notify(self, event: str, *args) -> None:\n        for subscriber in self.subscribers:\n            getattr(subscriber, event)(*args)\n"),
+    (DISP, "        # Notify subscribers\n        for subscriber in self.subscribers:\n            subscriber.update(scheduled_operation)\n",
+     "        self._notify(\"update\", scheduled_operation)\n"),
+], "hook picked by a literal name: cloned per literal by the pre-pass")
+_v("c10-m-notify-snapshot", "C10", "mutant", "R10.a", [
+    (DISP, "        # Notify subscribers\n        for subscriber in self.subscribers:\n            subscriber.update(scheduled_operation)\n",
+     "        handlers = [subscriber.update for subscriber in self.subscribers]\n        for handler in handlers:\n            handler(scheduled_operation)\n"),
+], "an observer unsubscribed during the notification is still called")
+_v("c16-r-pipeline-steps", "C16", "refactor", None, [
+    (ATG, "    graph = JobShopGraph(instance)\n\n    add_machine_nodes(graph)\n    add_operation_machine_edges(graph)\n    add_machine_machine_edges(graph)\n\n    add_same_job_operations_edges(graph)\n\n    return graph\n\n\n# BUILDING BLOCKS",
+     "    return _build(\n        instance,\n        add_machine_nodes,\n        add_operation_machine_edges,\n        add_machine_machine_edges,\n        add_same_job_operations_edges,\n    )\n\n\n"
+     "def _build(instance, *steps):\n    graph = JobShopGraph(instance)\n    for step in steps:\n        step(graph)\n    return graph\n\n\n# BUILDING BLOCKS"),
+], "the blocks run as the elements of *steps: the loop is unrolled at the call")
+_v("c13-r-template-update", "C13", "refactor", None, [
+    (REW2, "    def reset(self) -> None:\n        \"\"\"Sets rewards attribute to a new empty list.\"\"\"\n        self.rewards = []\n",
+     "    def reset(self) -> None:\n        \"\"\"Sets rewards attribute to a new empty list.\"\"\"\n        self.rewards = []\n\n"
+     "    def update(self, scheduled_operation: ScheduledOperation):\n        reward = self._compute_reward(scheduled_operation)\n        self.rewards.append(reward)\n\n"
+     "    def _compute_reward(self, scheduled_operation: ScheduledOperation):\n        raise NotImplementedError\n"),
+    (REW2, "    def update(self, scheduled_operation: ScheduledOperation):\n        last_makespan = self.current_makespan\n        self.current_makespan = max(\n            last_makespan, scheduled_operation.end_time\n        )\n        reward = last_makespan - self.current_makespan\n        self.rewards.append(reward)\n",
+     "    def _compute_reward(self, scheduled_operation: ScheduledOperation):\n        last_makespan = self.current_makespan\n        self.current_makespan = max(\n            last_makespan, scheduled_operation.end_time\n        )\n        return last_makespan - self.current_makespan\n"),
+], "update pulled up as a template method: copied back where the pinned tree defines it")
+_v("c19-r-pool-per-job-genexp", "C19", "refactor", None, [
+    (GGEN, "        jobs = []\n        available_machines = list(range(num_machines))\n        for _ in range(num_jobs):\n            job = []\n            for _ in range(num_machines):\n                operation = self.create_random_operation(available_machines)\n                job.append(operation)\n            jobs.append(job)\n            available_machines = list(range(num_machines))\n",
+     "        machine_ids = range(num_machines)\n        jobs = [\n            [self.create_random_operation(pool) for _ in machine_ids]\n            for pool in (list(machine_ids) for _ in range(num_jobs))\n        ]\n"),
+], "a fresh pool per job bound by a generator clause")
+_v("c05-r-makespan-memo", "C05", "refactor", None, [
+    (SCH, "        self.instance: JobShopInstance = instance\n        self._schedule = schedule\n",
+     "        self.instance: JobShopInstance = instance\n        self._schedule = schedule\n        self._makespan: int | None = None\n"),
+    (SCH, "        Schedule.check_schedule(new_schedule)\n        self._schedule = new_schedule\n",
+     "        Schedule.check_schedule(new_schedule)\n        self._schedule = new_schedule\n        self._makespan = None\n"),
+    (SCH, "        max_end_time = 0\n        for machine_schedule in self.schedule:\n            if machine_schedule:\n                max_end_time = max(max_end_time, machine_schedule[-1].end_time)\n        return max_end_time\n",
+     "        if self._makespan is None:\n            max_end_time = 0\n            for machine_schedule in self.schedule:\n                if machine_schedule:\n                    max_end_time = max(max_end_time, machine_schedule[-1].end_time)\n            self._makespan = max_end_time\n        return self._makespan\n"),
+    (SCH, "        self.schedule[scheduled_operation.machine_id].append(\n            scheduled_operation\n        )\n",
+     "        self.schedule[scheduled_operation.machine_id].append(\n            scheduled_operation\n        )\n        self._makespan = None\n"),
+], "a private memo invalidated by every writer of what it is computed from")
+_v("c07-r-makespan-memo", "C07", "refactor", None, list(VARIANTS[-1]["edits"]), "same memo, judged by the filter-purity rule")
+_v("c05-m-makespan-memo-stale", "C05", "mutant", "R05.a", [e for e in VARIANTS[-2]["edits"] if "append" not in e[1]],
+   "Schedule.add does not drop the memo: the fill is a write that makes later queries reflect an earlier state")
